@@ -1,0 +1,107 @@
+//go:build verif
+
+// Contracts for the generated bindings of this package (property C05), derived mechanically by
+// /verif/tools/gencontracts.py from the generated source; checked by /verif/govc. Comments only.
+
+package statf
+
+//@ func (*StatMicMsgHead).ResetDefault
+//@   requires st != nil
+//@   modifies *st
+//@   safety [C05]
+//
+//@ func (*StatMicMsgHead).ReadFrom
+//@   requires st != nil && validR(readBuf)
+//@   let p0 = readBuf.buf.i
+//@   let allocbudget = 256 * len(readBuf.buf.src)
+//@   modifies *st, readBuf.buf.i, readBuf.depth
+//@   allocates
+//@   ensures [C05] readBuf.buf.i >= p0
+//@   ensures [C05] validR(readBuf)
+//@   safety [C05]
+//
+//@ func (*StatMicMsgHead).ReadBlock
+//@   requires st != nil && validR(readBuf)
+//@   let p0 = readBuf.buf.i
+//@   let allocbudget = 256 * len(readBuf.buf.src)
+//@   modifies *st, readBuf.buf.i, readBuf.depth
+//@   allocates
+//@   ensures [C05] readBuf.buf.i >= p0
+//@   ensures [C05] validR(readBuf)
+//@   safety [C05]
+//
+//@ func (*StatMicMsgBody).ResetDefault
+//@   requires st != nil
+//@   modifies *st
+//@   safety [C05]
+//
+//@ func (*StatMicMsgBody).ReadFrom
+//@   requires st != nil && validR(readBuf)
+//@   let p0 = readBuf.buf.i
+//@   let allocbudget = 256 * len(readBuf.buf.src)
+//@   modifies *st, readBuf.buf.i, readBuf.depth
+//@   allocates
+//@   ensures [C05] readBuf.buf.i >= p0
+//@   ensures [C05] validR(readBuf)
+//@   loop 0 invariant [C05] validR(readBuf) && readBuf.buf.i >= p0 && st != nil && st.IntervalCount != nil
+//@   safety [C05]
+//
+//@ func (*StatMicMsgBody).ReadBlock
+//@   requires st != nil && validR(readBuf)
+//@   let p0 = readBuf.buf.i
+//@   let allocbudget = 256 * len(readBuf.buf.src)
+//@   modifies *st, readBuf.buf.i, readBuf.depth
+//@   allocates
+//@   ensures [C05] readBuf.buf.i >= p0
+//@   ensures [C05] validR(readBuf)
+//@   safety [C05]
+//
+//@ func (*StatSampleMsg).ResetDefault
+//@   requires st != nil
+//@   modifies *st
+//@   safety [C05]
+//
+//@ func (*StatSampleMsg).ReadFrom
+//@   requires st != nil && validR(readBuf)
+//@   let p0 = readBuf.buf.i
+//@   let allocbudget = 256 * len(readBuf.buf.src)
+//@   modifies *st, readBuf.buf.i, readBuf.depth
+//@   allocates
+//@   ensures [C05] readBuf.buf.i >= p0
+//@   ensures [C05] validR(readBuf)
+//@   safety [C05]
+//
+//@ func (*StatSampleMsg).ReadBlock
+//@   requires st != nil && validR(readBuf)
+//@   let p0 = readBuf.buf.i
+//@   let allocbudget = 256 * len(readBuf.buf.src)
+//@   modifies *st, readBuf.buf.i, readBuf.depth
+//@   allocates
+//@   ensures [C05] readBuf.buf.i >= p0
+//@   ensures [C05] validR(readBuf)
+//@   safety [C05]
+//
+//@ func (*ProxyInfo).ResetDefault
+//@   requires st != nil
+//@   modifies *st
+//@   safety [C05]
+//
+//@ func (*ProxyInfo).ReadFrom
+//@   requires st != nil && validR(readBuf)
+//@   let p0 = readBuf.buf.i
+//@   let allocbudget = 256 * len(readBuf.buf.src)
+//@   modifies *st, readBuf.buf.i, readBuf.depth
+//@   allocates
+//@   ensures [C05] readBuf.buf.i >= p0
+//@   ensures [C05] validR(readBuf)
+//@   safety [C05]
+//
+//@ func (*ProxyInfo).ReadBlock
+//@   requires st != nil && validR(readBuf)
+//@   let p0 = readBuf.buf.i
+//@   let allocbudget = 256 * len(readBuf.buf.src)
+//@   modifies *st, readBuf.buf.i, readBuf.depth
+//@   allocates
+//@   ensures [C05] readBuf.buf.i >= p0
+//@   ensures [C05] validR(readBuf)
+//@   safety [C05]
